@@ -5,8 +5,12 @@
    with their indexings) and Api/Panic.v (constructTxIn, estimateSignedSize, EstimateManualTxFee,
    signWitnessTx, addTxIn, findEligibleUtxos, CreateRawTransaction, SignRawTx, NewAddress,
    GetAllAddressesWithPubkey, GetTxHistory/selectRelatedTx, the current-keystore reads of txmgr,
-   asyncImport, the task queue, the input look-ups of filterTx / filterTxForImporting, filterBlock),
-   with explicit [Panic site] outcomes; the follower: Ledger/Model.v [process_or_keep].
+   asyncImport, the task queue, the input look-ups of filterTx / filterTxForImporting, filterBlock;
+   second group: the argument checks of CreateStaking/Binding/PoolPkCoinbaseTransaction, AutoCreateTransaction and
+   GetTransactionFee with massutil.DecodeAddress and blockchain.DecodePayload as oracles [codecs], getTxType /
+   createVinList over the transactions the node serves, GetBlockStakingReward's coinbase outputs, CheckTargetBinding,
+   GetStakingHistory, GetBindingHistory with the rows of txmgr's two history readers, SendRawTransaction, the cache
+   look-up of ValidateAddress), with explicit [Panic site] outcomes; the follower: Ledger/Model.v [process_or_keep].
    PARTIAL claim: everything behind the modelled part of a method is an oracle that answers
    ([e_rest_ok], [e_decode_tx], [e_sign_ok] …); which functions are modelled is listed in
    /verif/corpus/C19_inventory.json and compared with the compiler's bounds-check report on every run. *)
@@ -27,17 +31,17 @@ Require Import MW.Gen.Consts MW.Codec.Amount MW.Api.Validate MW.Api.Panic MW.Api
    wallet although the script reader does not accept its script. *)
 Theorem C19_as_found_refuted :
   wf w_sel /\ sequential w_sel /\ wf_env env0 /\
-  handle id_trim as_found env0 w_sel req_cti_index = Panic PCtiIndex /\
-  handle id_trim as_found env0 w_sel req_cti_block = Panic PCtiBlockNil /\
-  handle id_trim as_found env0 w_sel req_sign_meta = Panic PSignMetaNil /\
-  handle id_trim as_found env0 w_sel (RWmCreateRawTransaction [] 1 true) = Panic PSenders0 /\
-  handle id_trim as_found env0 w_none (RWmEstimateManualTxFee [ {| in_txid := [50]; in_vout := 0 |} ]) = Panic PExistsTxCurNil /\
-  handle id_trim as_found env0 w_sel (RWmGetTxHistory (-1)) = Panic PSelectSlice /\
-  handle id_trim as_found env0 w_race (RGetWalletBalance 1 true) = Panic PBalanceCurNil /\
-  handle id_trim as_found env0 w_race (RGetUtxo []) = Panic PUnspentsCurNil /\
-  handle id_trim as_found env0 w_race req_sign_meta = Panic PExistsTxCurNil /\
-  handle id_trim as_found env0 w_race RGetAllAddressesWithPubkey = Panic PPubkeyCurNil /\
-  handle id_trim as_found env0 w_starting (RImportWallet [123; 125] pass6) = Panic PTaskChanNil /\
+  handle id_trim cd0 as_found env0 w_sel req_cti_index = Panic PCtiIndex /\
+  handle id_trim cd0 as_found env0 w_sel req_cti_block = Panic PCtiBlockNil /\
+  handle id_trim cd0 as_found env0 w_sel req_sign_meta = Panic PSignMetaNil /\
+  handle id_trim cd0 as_found env0 w_sel (RWmCreateRawTransaction [] 1 true) = Panic PSenders0 /\
+  handle id_trim cd0 as_found env0 w_none (RWmEstimateManualTxFee [ {| in_txid := [50]; in_vout := 0 |} ]) = Panic PExistsTxCurNil /\
+  handle id_trim cd0 as_found env0 w_sel (RWmGetTxHistory (-1)) = Panic PSelectSlice /\
+  handle id_trim cd0 as_found env0 w_race (RGetWalletBalance 1 true) = Panic PBalanceCurNil /\
+  handle id_trim cd0 as_found env0 w_race (RGetUtxo []) = Panic PUnspentsCurNil /\
+  handle id_trim cd0 as_found env0 w_race req_sign_meta = Panic PExistsTxCurNil /\
+  handle id_trim cd0 as_found env0 w_race RGetAllAddressesWithPubkey = Panic PPubkeyCurNil /\
+  handle id_trim cd0 as_found env0 w_starting (RImportWallet [123; 125] pass6) = Panic PTaskChanNil /\
   async_import as_found [ImpRelevant; ImpNotRelevant] = Panic PImportRecNil.
 Proof. exact as_found_refuted. Qed.
 Print Assumptions C19_as_found_refuted.
@@ -46,29 +50,30 @@ Print Assumptions C19_as_found_refuted.
    closure of signing), found by freezing a request at the end of each of its database reads *)
 Theorem C19_as_found_refuted_late_reads :
   wf w_race3 /\ selected_ok w_race3 env_sel /\
-  handle id_trim as_found env_sel w_race3 (RAutoCreateTransaction one_mass 0 [] [] []) = Panic PFindMaNil /\
-  handle id_trim as_found env_sel w_race3 req_sign_meta = Panic PSignScriptCurNil /\
-  handle id_trim all_fixed env_sel w_race3 (RAutoCreateTransaction one_mass 0 [] [] []) = Err ErrBelow /\
-  handle id_trim all_fixed env_sel w_race3 req_sign_meta = Err ErrBelow.
+  handle id_trim cd0 as_found env_sel w_race3 (RAutoCreateTransaction one_mass 0 [] [] []) = Panic PFindMaNil /\
+  handle id_trim cd0 as_found env_sel w_race3 req_sign_meta = Panic PSignScriptCurNil /\
+  handle id_trim cd0 all_fixed env_sel w_race3 (RAutoCreateTransaction one_mass 0 [] [] []) = Err ErrBelow /\
+  handle id_trim cd0 all_fixed env_sel w_race3 req_sign_meta = Err ErrBelow.
 Proof. exact as_found_refuted_late_reads. Qed.
 Print Assumptions C19_as_found_refuted_late_reads.
 
 (* the same requests on the repaired code are answered or rejected *)
 Theorem C19_witnesses_answered_when_repaired :
-  handle id_trim all_fixed env0 w_sel req_cti_index = Err ErrBelow /\
-  handle id_trim all_fixed env0 w_sel req_cti_block = Err ErrBelow /\
-  handle id_trim all_fixed env0 w_sel req_sign_meta = Ok tt /\
-  handle id_trim all_fixed env0 w_sel (RWmCreateRawTransaction [] 1 true) = Err ErrBelow /\
-  handle id_trim all_fixed env0 w_race (RGetWalletBalance 1 true) = Err ErrBelow /\
-  handle id_trim all_fixed env0 w_starting (RImportWallet [123; 125] pass6) = Ok tt /\
-  handle id_trim all_fixed env0 w_sel (RWmGetTxHistory (-1)) = Ok tt /\
+  handle id_trim cd0 all_fixed env0 w_sel req_cti_index = Err ErrBelow /\
+  handle id_trim cd0 all_fixed env0 w_sel req_cti_block = Err ErrBelow /\
+  handle id_trim cd0 all_fixed env0 w_sel req_sign_meta = Ok tt /\
+  handle id_trim cd0 all_fixed env0 w_sel (RWmCreateRawTransaction [] 1 true) = Err ErrBelow /\
+  handle id_trim cd0 all_fixed env0 w_race (RGetWalletBalance 1 true) = Err ErrBelow /\
+  handle id_trim cd0 all_fixed env0 w_starting (RImportWallet [123; 125] pass6) = Ok tt /\
+  handle id_trim cd0 all_fixed env0 w_sel (RWmGetTxHistory (-1)) = Ok tt /\
   async_import all_fixed [ImpRelevant; ImpNotRelevant] = Ok tt.
 Proof. exact witnesses_fixed. Qed.
 Print Assumptions C19_witnesses_answered_when_repaired.
 
-(* T1: the validation prologue of every request — whatever the strings, ids, indexes, amounts, hex,
-   flags, passphrases, for ANY implementation of strings.TrimSpace — answers or rejects *)
-Theorem C19_prologue_no_panic : forall (trim : str -> str) (r : request) (p : site), prologue trim r <> Panic p.
+(* T1: the validation prologue of every request (38 kinds) — whatever the strings, ids, indexes, amounts, hex,
+   flags, passphrases, binding outputs, payloads, for ANY implementation of strings.TrimSpace, of
+   massutil.DecodeAddress and of blockchain.DecodePayload ([codecs]) — answers or rejects *)
+Theorem C19_prologue_no_panic : forall (trim : str -> str) (cd : codecs) (r : request) (p : site), prologue trim cd r <> Panic p.
 Proof. exact prologue_no_panic. Qed.
 Print Assumptions C19_prologue_no_panic.
 
@@ -88,31 +93,44 @@ Print Assumptions C19_amount_format_no_panic.
    between two reads of one call ([cur2] arbitrary); the task queue created or not — every modelled
    request with uint32 output indexes is answered or rejected by the repaired code.
    [wf]: ExistsTx answers only for existing credits of real outputs that the script reader accepted,
-   a hash names one transaction, ExistsUtxo answers only for existing outputs (C01, C16). *)
-Theorem C19_no_panic : forall (trim : str -> str) (e : env) (w : wst) (r : request) (p : site),
-  wf w -> wf_env e -> selected_ok w e -> req_ok r -> handle trim all_fixed e w r <> Panic p.
+   a hash names one transaction, ExistsUtxo answers only for existing outputs (C01, C16).
+   [request] now also covers CreateBindingTransaction, CreatePoolPkCoinbaseTransaction, GetStakingHistory,
+   GetBindingHistory, SendRawTransaction, GetNetworkBinding, CheckPoolPkCoinbase, CheckTargetBinding,
+   GetBlockByHeight, GetBestBlock, GetBlockStakingReward, Wallets (and GetRawTransaction's input listing);
+   [wf_env] for them: an input of a transaction the node serves refers to an existing output (the node
+   validated it), the coinbase pays the staking rewards its payload announces, a binding-history row
+   was written for a binding output of the recorded transaction. *)
+Theorem C19_no_panic : forall (trim : str -> str) (cd : codecs) (e : env) (w : wst) (r : request) (p : site),
+  wf w -> wf_env e -> selected_ok w e -> req_ok r -> handle trim cd all_fixed e w r <> Panic p.
 Proof. exact handle_no_panic. Qed.
 Print Assumptions C19_no_panic.
 
-(* every switch of the model is in the repaired position for the code as it stands *)
-Example C19_current_code_is_repaired : current_code = all_fixed.
-Proof. reflexivity. Qed.
+(* every switch of the model but the two found with the second group of methods and the after-Stop state
+   (GetBindingHistoryDetail, GetManagedAddressByScriptHashInCurrent: not yet repaired in /repo) is in the
+   repaired position for the code as it stands *)
+Example C19_current_code_switches :
+  current_code = {| fx_cti_index := true; fx_cti_block := true; fx_cti_dup := true; fx_senders := true; fx_sign_meta := true;
+                    fx_sign_len0 := true; fx_cur_nil := true; fx_cur3_nil := true; fx_import_rec := true; fx_taskchan := true;
+                    fx_select_neg := true; fx_cur_evicted := false; fx_bindhist_hash := false |}.
+Proof. exact current_code_switches. Qed.
 
 (* T4: one lemma for every switch setting: a panic can only come from a site whose repair is switched
    off; sites without a switch never fire *)
-Theorem C19_panic_only_at_unrepaired_sites : forall trim fx e w r p,
+Theorem C19_panic_only_at_unrepaired_sites : forall trim cd fx e w r p,
   wf w -> wf_env e -> selected_ok w e -> req_ok r ->
-  handle trim fx e w r = Panic p -> guarded_by fx p = false.
+  handle trim cd fx e w r = Panic p -> guarded_by fx p = false.
 Proof. exact handle_panic_only_unfixed. Qed.
 Print Assumptions C19_panic_only_at_unrepaired_sites.
 
 (* T5: the gRPC API proper, used sequentially after start-up, could panic in the code as found ONLY at
    the three pending-input sites (the other witnesses above need the WalletManager called directly, a
-   race with the background removal, or a request during start-up) *)
-Theorem C19_api_as_found_only_pending_sites : forall trim e w r p,
+   race with the background removal, or a request during start-up), at the two sites of
+   GetBindingHistory (T8) and at the cache look-up of ValidateAddress (T11) *)
+Theorem C19_api_as_found_only_pending_sites : forall trim cd e w r p,
   wf w -> wf_env e -> selected_ok w e -> req_ok r -> api_request r ->
   sequential w -> taskchan w = true ->
-  handle trim as_found e w r = Panic p -> p = PCtiIndex \/ p = PCtiBlockNil \/ p = PSignMetaNil.
+  handle trim cd as_found e w r = Panic p ->
+  p = PCtiIndex \/ p = PCtiBlockNil \/ p = PSignMetaNil \/ p = PBindHistIndex \/ p = PBindHistTargetNil \/ p = PCurEvictedNil.
 Proof. exact api_as_found_panics_only_at_pending_sites. Qed.
 Print Assumptions C19_api_as_found_only_pending_sites.
 
@@ -154,15 +172,131 @@ Theorem C19_refused_delivery_keeps_state : forall p own n st b e,
 Proof. exact refused_delivery_keeps_state. Qed.
 Print Assumptions C19_refused_delivery_keeps_state.
 
+(* T8: GetBindingHistory while the wallet lags behind a reorganisation of the node (genuine defect of the
+   unchanged code, reproduced on the implementation by scenario "lagging-reorg"): GetBindingHistoryDetail
+   fetches the deposit transaction by the recorded (height, location) and, unlike TxStore.ExistsTx, does not
+   compare its hash; when the node meanwhile holds another transaction there, msgtx.TxOut[index] leaves the
+   slice, or the output found is not a binding script and the API dereferences its nil binding target.
+   Repaired model (hash comparison, row left out): both requests are answered. *)
+Theorem C19_binding_history_refuted :
+  wf w_sel /\ sequential w_sel /\ wf_env (env_lag row_lag1) /\ wf_env (env_lag row_lag2) /\
+  handle id_trim cd0 as_found (env_lag row_lag1) w_sel (RGetBindingHistory []) = Panic PBindHistIndex /\
+  handle id_trim cd0 as_found (env_lag row_lag2) w_sel (RGetBindingHistory []) = Panic PBindHistTargetNil /\
+  handle id_trim cd0 current_code (env_lag row_lag1) w_sel (RGetBindingHistory []) = Panic PBindHistIndex /\
+  handle id_trim cd0 current_code (env_lag row_lag2) w_sel (RGetBindingHistory []) = Panic PBindHistTargetNil /\
+  handle id_trim cd0 all_fixed (env_lag row_lag1) w_sel (RGetBindingHistory []) = Ok tt /\
+  handle id_trim cd0 all_fixed (env_lag row_lag2) w_sel (RGetBindingHistory []) = Ok tt.
+Proof. exact bind_history_as_found_refuted. Qed.
+Print Assumptions C19_binding_history_refuted.
+
+(* T9: the code as it stands — every request kind, every well-formed state and environment — can panic only at
+   those two sites and at the one of T11 ... *)
+Theorem C19_current_code_only_known_sites : forall trim cd e w r p,
+  wf w -> wf_env e -> selected_ok w e -> req_ok r ->
+  handle trim cd current_code e w r = Panic p -> p = PBindHistIndex \/ p = PBindHistTargetNil \/ p = PCurEvictedNil.
+Proof. exact current_code_panics_only_at_known_sites. Qed.
+Print Assumptions C19_current_code_only_known_sites.
+
+(* ... and GetBindingHistory panics only with the unrepaired code and only while some MINED row's transaction is
+   no longer at the recorded place of the node's chain: a wallet that has followed the node never panics *)
+Theorem C19_binding_history_panic_needs_lagging_row : forall trim cd fx e w t p,
+  wf_env e -> handle trim cd fx e w (RGetBindingHistory t) = Panic p ->
+  (p = PBindHistIndex \/ p = PBindHistTargetNil) /\ fx_bindhist_hash fx = false /\
+  exists row, In row (e_bind_rows e) /\ br_mined row = true /\ br_same row = false.
+Proof. exact binding_history_panic_needs_lagging_row. Qed.
+Print Assumptions C19_binding_history_panic_needs_lagging_row.
+
+(* T11: ValidateAddress after the keystore cache has lost the keystore that is still selected (genuine defect of
+   the unchanged code, reproduced by scenario "stopped": after WalletManager.Stop has closed the database
+   WalletManager.NewAddress fails, drops the cached keystore by name in order to reload it, and the reload fails
+   too — CreateAddress gets there when Stop closes the database after its GetAddresses call, or under two storage
+   faults; GetManagedAddressByScriptHashInCurrent then indexes the nil map entry). Repaired model: ErrCurrentKeystoreNotFound. *)
+Theorem C19_cur_evicted_refuted :
+  wf w_evicted /\ wf_env env0 /\
+  handle id_trim cd0 as_found env0 w_evicted (RValidateAddress [109]) = Panic PCurEvictedNil /\
+  handle id_trim cd0 current_code env0 w_evicted (RValidateAddress [109]) = Panic PCurEvictedNil /\
+  handle id_trim cd0 all_fixed env0 w_evicted (RValidateAddress [109]) = Err ErrAPINoWalletInUse /\
+  handle id_trim cd0 as_found env0 w_evicted (RValidateAddress [122]) = Ok tt /\
+  handle id_trim cd0 as_found env0 w_evicted (RGetWalletBalance 1 true) = Err ErrAPINoWalletInUse.
+Proof. exact cur_evicted_refuted. Qed.
+Print Assumptions C19_cur_evicted_refuted.
+
+Theorem C19_validate_address_panic_needs_evicted : forall trim cd fx e w a p,
+  handle trim cd fx e w (RValidateAddress a) = Panic p ->
+  p = PCurEvictedNil /\ fx_cur_evicted fx = false /\ evicted w = true.
+Proof. exact validate_address_panic_needs_evicted. Qed.
+Print Assumptions C19_validate_address_panic_needs_evicted.
+
+(* T10: the pieces of the second group on their own. Serving a block or a transaction (getTxType, createVinList):
+   inputs that refer to existing outputs are listed without a panic; GetBlockStakingReward reads only outputs
+   the coinbase has; CheckTargetBinding reads bytes 20 and 21 only of 22-byte targets, whatever DecodeAddress
+   answers; GetStakingHistory formats any amount *)
+Theorem C19_serve_block : forall b p, Forall wf_btx b -> marshal_block b <> Panic p.
+Proof. exact marshal_block_no_panic. Qed.
+Print Assumptions C19_serve_block.
+
+Theorem C19_serve_block_unchecked_refuted :
+  marshal_block [ {| bt_coinbase := false; bt_game_out := false;
+                     bt_ins := [ {| bi_prev := Some 2; bi_index := 2; bi_game := false; bi_addr_ok := true |} ];
+                     bt_vout_ok := true; bt_rest_ok := true |} ] = Panic PTxTypeIndex.
+Proof. exact serve_block_unchecked_refuted. Qed.
+Print Assumptions C19_serve_block_unchecked_refuted.
+
+Theorem C19_reward_outputs : forall n nout p, n <= nout -> reward_outs n nout <> Panic p.
+Proof. exact reward_outs_no_panic. Qed.
+Print Assumptions C19_reward_outputs.
+
+Theorem C19_check_target : forall trim cd e t p, check_target trim cd e t <> Panic p.
+Proof. exact check_target_no_panic. Qed.
+Print Assumptions C19_check_target.
+
+Theorem C19_staking_history : forall w ok rows p, get_staking_history w ok rows <> Panic p.
+Proof. exact get_staking_history_no_panic. Qed.
+Print Assumptions C19_staking_history.
+
+(* non-vacuity of the second group: valid requests succeed on the witness state, each argument check rejects
+   with its own code, in source order *)
+Example C19_second_group_nontrivial :
+  let out := {| bo_holder := [109]; bo_binding := [116]; bo_amount := [49] |} in
+  handle id_trim cd0 all_fixed env0 w_sel (RCreateBindingTransaction [out] [] []) = Ok tt /\
+  handle id_trim cd0 all_fixed env0 w_sel (RCreateBindingTransaction [] [] []) = Err ErrAPIInvalidParameter /\
+  handle id_trim cd0 all_fixed env0 w_sel (RCreateBindingTransaction [ {| bo_holder := [115]; bo_binding := [116]; bo_amount := [49] |} ] [] []) = Err ErrAPIInvalidAddress /\
+  handle id_trim cd0 all_fixed env0 w_sel (RCreateBindingTransaction [ {| bo_holder := [109]; bo_binding := [109]; bo_amount := [49] |} ] [] []) = Err ErrAPIInvalidAddress /\
+  handle id_trim cd0 all_fixed env0 w_sel (RCreateBindingTransaction [out] [] [120]) = Err ErrAPIUserTxFee /\
+  handle id_trim cd0 all_fixed env0 w_none (RCreateBindingTransaction [out] [] []) = Err ErrAPINoWalletInUse /\
+  handle id_trim cd0 all_fixed env0 w_sel (RCreateStakingTransaction [] [115] [50;48;52;56] 100 []) = Ok tt /\
+  handle id_trim cd0 all_fixed env0 w_sel (RCreateStakingTransaction [] [115] [50;48;52;55] 100 []) = Err ErrAPIInvalidAmount /\
+  handle id_trim cd0 all_fixed env0 w_sel (RCreateStakingTransaction [] [109] [50;48;52;56] 100 []) = Err ErrAPIInvalidAddress /\
+  handle id_trim cd0 all_fixed env0 w_sel (RCreatePoolPkCoinbaseTransaction [109] [48;49]) = Ok tt /\
+  handle id_trim cd0 all_fixed env0 w_sel (RCreatePoolPkCoinbaseTransaction [109] [48]) = Err ErrAPIInvalidParameter /\
+  handle id_trim cd0 all_fixed env0 w_sel (RGetBindingHistory []) = Ok tt /\
+  handle id_trim cd0 all_fixed env0 w_none (RGetBindingHistory []) = Err ErrAPINoWalletInUse /\
+  handle id_trim cd0 all_fixed env0 w_none (RGetStakingHistory []) = Err ErrAPIGetStakingTxDetail /\
+  handle id_trim cd0 all_fixed env0 w_sel (RGetStakingHistory []) = Ok tt /\
+  handle id_trim cd0 all_fixed env0 w_none (RGetBlockByHeight 3) = Ok tt /\
+  handle id_trim cd0 all_fixed env0 w_none (RGetBlockStakingReward 11) = Err ErrAPIInvalidParameter /\
+  handle id_trim cd0 all_fixed env0 w_none (RGetBlockStakingReward 10) = Ok tt /\
+  handle id_trim cd0 all_fixed env0 w_none (RCheckTargetBinding [[116]; [112]; [109]; []]) = Ok tt /\
+  handle id_trim cd0 all_fixed env0 w_none (RCheckPoolPkCoinbase [[48]]) = Err ErrAPIInvalidParameter /\
+  handle id_trim cd0 all_fixed env0 w_none (RSendRawTransaction []) = Err ErrAPIInvalidTxHex /\
+  handle id_trim cd0 all_fixed env0 w_none (RSendRawTransaction [48; 48]) = Ok tt /\
+  handle id_trim cd0 all_fixed env0 w_sel (RGetTransactionFee [([115], [49])] [] true) = Err ErrAPIInvalidAddress /\
+  handle id_trim cd0 all_fixed env0 w_sel (RGetTransactionFee [([115], [49])] [] false) = Ok tt /\
+  handle id_trim cd0 all_fixed env0 w_sel (RValidateAddress [109]) = Ok tt /\
+  handle id_trim cd0 all_fixed env0 w_sel (RValidateAddress [112]) = Err ErrAPIInvalidAddress /\
+  handle id_trim cd0 all_fixed env0 w_none (RValidateAddress [109]) = Err ErrAPINoWalletInUse /\
+  handle id_trim cd0 all_fixed env0 w_none (RValidateAddress [122]) = Ok tt.
+Proof. repeat split; vm_compute; reflexivity. Qed.
+
 (* non-vacuity: the witness state is well formed, has a selected wallet with a pending transaction and a
    mined credit, and ordinary requests succeed on it *)
 Example C19_state_nontrivial :
   wf w_sel /\ wf_env env0 /\ selected_ok w_sel env0 /\
-  handle id_trim all_fixed env0 w_sel
+  handle id_trim cd0 all_fixed env0 w_sel
     (RCreateRawTransaction [ {| in_txid := txid_of 2; in_vout := 0 |} ] one_mass 0 [109] []) = Ok tt /\
-  handle id_trim all_fixed env0 w_sel (RGetWalletBalance 1 true) = Ok tt /\
-  handle id_trim all_fixed env0 w_none (RGetWalletBalance 1 true) = Err ErrAPINoWalletInUse /\
-  handle id_trim all_fixed env0 w_sel (RUseWallet [97]) = Err ErrAPIInvalidWalletId.
+  handle id_trim cd0 all_fixed env0 w_sel (RGetWalletBalance 1 true) = Ok tt /\
+  handle id_trim cd0 all_fixed env0 w_none (RGetWalletBalance 1 true) = Err ErrAPINoWalletInUse /\
+  handle id_trim cd0 all_fixed env0 w_sel (RUseWallet [97]) = Err ErrAPIInvalidWalletId.
 Proof.
   split; [exact wf_store0|]. split; [exact wf_env0|]. split; [apply selected_ok0|].
   repeat split; vm_compute; reflexivity.
